@@ -176,6 +176,42 @@ struct Shared {
     root_op_hex: String,
 }
 
+/// Objects written through the store during the current run, for the C17
+/// byte-identical read-back by other simulated processes. One run at a time
+/// per OS process, so a process-global list (reset at the start of a run) is
+/// enough.
+#[derive(Clone)]
+enum WrittenObject {
+    File(RepoPathBuf, jj_lib::backend::FileId, Vec<u8>),
+    Symlink(RepoPathBuf, jj_lib::backend::SymlinkId, String),
+    /// root tree id and its entries as the writer read them back from its own store
+    Tree(jj_lib::backend::TreeId, Vec<(String, jj_lib::backend::TreeValue)>),
+}
+static WRITTEN_OBJECTS: Mutex<Vec<WrittenObject>> = Mutex::new(Vec::new());
+
+fn record_written(o: WrittenObject) {
+    let mut w = WRITTEN_OBJECTS.lock().unwrap();
+    if w.len() < 400 {
+        w.push(o);
+    }
+}
+
+/// Writes a file through the store and records it for the read-back check.
+fn store_write_file(store: &Arc<Store>, rp: &RepoPathBuf, content: &[u8]) -> Result<jj_lib::backend::FileId, String> {
+    let id = store.write_file(rp, &mut &content[..]).block_on().map_err(|e| err_chain(&e))?;
+    record_written(WrittenObject::File(rp.clone(), id.clone(), content.to_vec()));
+    Ok(id)
+}
+
+fn record_root_tree(store: &Arc<Store>, tree: &MergedTree) {
+    if let Some(id) = tree.tree_ids().as_resolved()
+        && let Ok(t) = store.get_tree(RepoPathBuf::root(), id).block_on()
+    {
+        let entries = t.entries_non_recursive().map(|e| (e.name().as_internal_str().to_string(), e.value().clone())).collect();
+        record_written(WrittenObject::Tree(id.clone(), entries));
+    }
+}
+
 fn cur_seq(sim: &Sim) -> u64 {
     sim.inner.lock().unwrap().log.last().map_or(0, |e| e.seq)
 }
@@ -819,6 +855,68 @@ fn check_roundtrip(shared: &Shared, sim: &Sim, loader: &RepoLoader, repo: &dyn R
             }
         }
     }
+    // files, symlinks and trees written by anybody read back byte-identical
+    // through this process's fresh store (objects are written before the
+    // commit that references them, so everything recorded is on disk unless
+    // its writer was stopped by an injected I/O error - then the read may
+    // fail, but must never return different bytes)
+    let objects: Vec<WrittenObject> = {
+        let w = WRITTEN_OBJECTS.lock().unwrap();
+        w.iter().rev().take(12).cloned().collect()
+    };
+    for o in objects {
+        match o {
+            WrittenObject::File(path, id, want) => {
+                if let Ok(mut reader) = store.read_file(&path, &id).block_on() {
+                    let mut got = vec![];
+                    if tokio_read_all(&mut reader, &mut got).is_ok() {
+                        if got != want {
+                            shared.model.lock().unwrap().violate(
+                                "C17",
+                                "file_roundtrip",
+                                "reposim:c17:file_roundtrip".into(),
+                                format!("{ctx}: file {} ({}) reads back {} bytes, {} were written and differ", path.as_internal_file_string(), short(&id), got.len(), want.len()),
+                                at,
+                            );
+                        } else {
+                            shared.model.lock().unwrap().probe("c17_file_reread");
+                        }
+                    }
+                }
+            }
+            WrittenObject::Symlink(path, id, want) => {
+                if let Ok(got) = store.read_symlink(&path, &id).block_on() {
+                    if got != want {
+                        shared.model.lock().unwrap().violate(
+                            "C17",
+                            "symlink_roundtrip",
+                            "reposim:c17:symlink_roundtrip".into(),
+                            format!("{ctx}: symlink {} reads back {got:?}, written {want:?}", path.as_internal_file_string()),
+                            at,
+                        );
+                    } else {
+                        shared.model.lock().unwrap().probe("c17_symlink_reread");
+                    }
+                }
+            }
+            WrittenObject::Tree(id, want) => {
+                if let Ok(t) = store.get_tree(RepoPathBuf::root(), &id).block_on() {
+                    let got: Vec<(String, jj_lib::backend::TreeValue)> = t.entries_non_recursive().map(|e| (e.name().as_internal_str().to_string(), e.value().clone())).collect();
+                    if got != want {
+                        shared.model.lock().unwrap().violate(
+                            "C17",
+                            "tree_roundtrip",
+                            "reposim:c17:tree_roundtrip".into(),
+                            format!("{ctx}: root tree {} reads back with entries {:?}, written {:?}", short(&id), got.iter().map(|(n, _)| n).collect::<Vec<_>>(), want.iter().map(|(n, _)| n).collect::<Vec<_>>()),
+                            at,
+                        );
+                    } else {
+                        shared.model.lock().unwrap().probe("c17_tree_reread");
+                    }
+                }
+            }
+        }
+    }
     let op_store = loader.op_store();
     let seen: BTreeSet<String> = shared.model.lock().unwrap().seen_heads.clone();
     for (id, expected) in ops.iter().rev().take(10) {
@@ -998,10 +1096,7 @@ fn write_tree(mut_repo: &mut MutableRepo, base: &MergedTree, path: &str, content
     use jj_lib::merged_tree_builder::MergedTreeBuilder;
     let store = mut_repo.store().clone();
     let rp = RepoPathBuf::from_internal_string(path).unwrap();
-    let id = store
-        .write_file(&rp, &mut content.as_bytes())
-        .block_on()
-        .map_err(|e| err_chain(&e))?;
+    let id = store_write_file(&store, &rp, content.as_bytes())?;
     let mut b = MergedTreeBuilder::new(base.clone());
     b.set_or_remove(
         rp,
@@ -1011,7 +1106,9 @@ fn write_tree(mut_repo: &mut MutableRepo, base: &MergedTree, path: &str, content
             copy_id: jj_lib::backend::CopyId::placeholder(),
         }),
     );
-    b.write_tree().block_on().map_err(|e| err_chain(&e))
+    let tree = b.write_tree().block_on().map_err(|e| err_chain(&e))?;
+    record_root_tree(&store, &tree);
+    Ok(tree)
 }
 
 const TREE_PATHS: [&str; 7] = ["f0", "f1", "f2", "f3", "d/a", "d/b", "d/e/x"];
@@ -1029,7 +1126,7 @@ fn edit_tree(mut_repo: &mut MutableRepo, base: &MergedTree, d: &Draw<'_>, tag: &
     let n = 1 + d.weighted(&[6, 2, 1]);
     let mut b = MergedTreeBuilder::new(base.clone());
     for k in 0..n {
-        let mode = d.weighted(&[5, 2, 2, 4]);
+        let mode = d.weighted(&[5, 2, 2, 4, 1]);
         let path = if mode == 3 {
             MULTILINE_PATHS[d.n(MULTILINE_PATHS.len())]
         } else {
@@ -1039,6 +1136,12 @@ fn edit_tree(mut_repo: &mut MutableRepo, base: &MergedTree, d: &Draw<'_>, tag: &
         match mode {
             1 => {
                 b.set_or_remove(rp, Merge::absent());
+            }
+            4 => {
+                let target = format!("../target of {tag}.{k} \u{e9}");
+                let id = store.write_symlink(&rp, &target).block_on().map_err(|e| err_chain(&e))?;
+                record_written(WrittenObject::Symlink(rp.clone(), id.clone(), target));
+                b.set_or_remove(rp, Merge::normal(TreeValue::Symlink(id)));
             }
             3 => {
                 // change one line of a multi-line file (created on first use), so
@@ -1061,10 +1164,7 @@ fn edit_tree(mut_repo: &mut MutableRepo, base: &MergedTree, d: &Draw<'_>, tag: &
                 }
                 lines[line] = format!("{tag}.{k}");
                 let content = lines.join("\n") + "\n";
-                let id = store
-                    .write_file(&rp, &mut content.as_bytes())
-                    .block_on()
-                    .map_err(|e| err_chain(&e))?;
+                let id = store_write_file(&store, &rp, content.as_bytes())?;
                 b.set_or_remove(
                     rp,
                     Merge::normal(TreeValue::File {
@@ -1076,10 +1176,7 @@ fn edit_tree(mut_repo: &mut MutableRepo, base: &MergedTree, d: &Draw<'_>, tag: &
             }
             w => {
                 let content = if w == 2 { "same\n".to_string() } else { format!("{tag}.{k}\n") };
-                let id = store
-                    .write_file(&rp, &mut content.as_bytes())
-                    .block_on()
-                    .map_err(|e| err_chain(&e))?;
+                let id = store_write_file(&store, &rp, content.as_bytes())?;
                 b.set_or_remove(
                     rp,
                     Merge::normal(TreeValue::File {
@@ -1091,7 +1188,9 @@ fn edit_tree(mut_repo: &mut MutableRepo, base: &MergedTree, d: &Draw<'_>, tag: &
             }
         }
     }
-    b.write_tree().block_on().map_err(|e| err_chain(&e))
+    let tree = b.write_tree().block_on().map_err(|e| err_chain(&e))?;
+    record_root_tree(&store, &tree);
+    Ok(tree)
 }
 
 /// Replaces one line of a five-line file (created when absent or not a plain file).
@@ -2002,6 +2101,7 @@ impl Engine for RepoSim {
     #[allow(clippy::too_many_lines)]
     fn run(&self, prop: &str, mut chooser: Chooser, scratch: &Path) -> RunOutcome {
         let mut out = RunOutcome::default();
+        WRITTEN_OBJECTS.lock().unwrap().clear();
         let heads_focus = prop == "C14" && chooser.chance(2, 3);
         let n_procs = chooser.range(2, 4);
         let cmds: Vec<usize> = (0..n_procs).map(|_| chooser.range(1, if heads_focus { 4 } else { 3 })).collect();
